@@ -483,7 +483,7 @@ impl World {
                     ev["rule"] = json!(self.rule_ptrs.get(&addr(&rule)).cloned().unwrap_or_else(|| "?".into()));
                     ev["rule_res"] = json!(self.abs_name(&rule.resource_name()));
                 } else {
-                    ev["rule"] = Value::Null;
+                    ev["rule"] = json!("none");
                 }
                 if let Some(sv) = be.triggered_value() {
                     let any = sv.as_any();
@@ -498,7 +498,9 @@ impl World {
                     } else {
                         None
                     };
-                    ev["snap"] = json!(milli);
+                    if let Some(m) = milli {
+                        ev["snap"] = json!(m);
+                    }
                 }
             }
             recorder::Last::Pass => ev["chain"] = json!("pass"),
@@ -545,7 +547,7 @@ impl World {
                 let name = self.rn(r);
                 match stat::get_resource_node(&name) {
                     Some(n) => nodes.insert(r.clone(), Self::node_obs(&n)),
-                    None => nodes.insert(r.clone(), Value::Null),
+                    None => None,
                 };
                 let brs = cb::get_breakers_of_resource(&name);
                 if !brs.is_empty() {
@@ -614,6 +616,10 @@ impl World {
             out.push(ev);
         }
         self.clear_all();
+        if let Some(ns) = clock::now_ns() {
+            let mut last = LAST_ABS_MS.lock().unwrap();
+            *last = (*last).max(ns / 1_000_000 + 1);
+        }
         clock::off();
         out
     }
